@@ -379,37 +379,47 @@ Lemma find_loaded s : valid s = true -> forall e real, find_in_cache s true e re
 Proof.
   intros Hv e real. unfold find_in_cache, lookup_spec.
   destruct (subclasses s real) as [|c0 cs]; [reflexivity|].
-  destruct (negb (issub s e real) && negb (issub s real e)) eqn:E; [|reflexivity].
-  apply andb_true_iff in E as [_ E2]. apply negb_true_iff in E2. now rewrite E2.
+  destruct (negb (issub s e real) && negb (issub s real e) && (negb false || negb (common_subclass s real e))) eqn:E; [|reflexivity].
+  apply andb_true_iff in E as [E _]. apply andb_true_iff in E as [_ E2]. apply negb_true_iff in E2. now rewrite E2.
 Qed.
 
-(* a seed typed cur (an ancestor of the real class, or the class itself): right whenever e and cur lie on one line of descent *)
+(* a seed typed cur (an ancestor of the real class, or the class itself): right for every entity e, also in diamonds (fix 8097451) *)
 Lemma find_seed s : valid s = true -> forall e cur real, family s cur real ->
-  (issub s e cur = true \/ issub s cur e = true) ->
   find_in_cache s true e cur true real = lookup_spec s e real.
 Proof.
-  intros Hv e cur real Hf Hrel. unfold find_in_cache, lookup_spec.
+  intros Hv e cur real Hf. unfold find_in_cache, lookup_spec.
   destruct (subclasses s cur) as [|c0 cs] eqn:Es.
-  - (* no subclasses: the seed already has the real class *)
-    assert (real = cur) as ->; [|reflexivity].
+  - assert (real = cur) as ->; [|reflexivity].
     destruct Hf as [->|Ha]; [reflexivity|]. apply (subclasses_anc s Hv) in Ha. rewrite Es in Ha. contradiction.
-  - replace (negb (issub s e cur) && negb (issub s cur e)) with false by (destruct Hrel as [H|H]; rewrite H; cbn; now rewrite ?andb_false_r).
-    now rewrite (refine_exact s Hv cur real Hf).
+  - cbn [negb orb].
+    destruct (negb (issub s e cur) && negb (issub s cur e) && negb (common_subclass s cur e)) eqn:E.
+    + (* unrelated classes without a common subclass: the stored class cannot be below e *)
+      apply andb_true_iff in E as [E E3]. apply andb_true_iff in E as [E1 E2].
+      apply negb_true_iff in E1, E2, E3.
+      apply (issub_false_family s Hv) in E1, E2.
+      destruct (issub s real e) eqn:Ere; [|reflexivity]. exfalso.
+      apply (issub_family s Hv) in Ere.
+      destruct Ere as [->|Her]; [now apply E1|]. destruct Hf as [->|Hcr]; [apply E2; now right|].
+      unfold common_subclass in E3. assert (Hex : existsb (fun c => nmem c (subclasses s e)) (subclasses s cur) = true).
+      { apply existsb_exists. exists real. split; [now apply subclasses_anc | apply nmem_In; now apply subclasses_anc]. }
+      congruence.
+    + now rewrite (refine_exact s Hv cur real Hf).
 Qed.
 
-(* on a single line of descent (no multiple inheritance above the real class) the side condition always holds when the lookup should succeed *)
 Lemma find_seed_found s : valid s = true -> forall e cur real, family s cur real -> family s e real ->
-  (issub s e cur = true \/ issub s cur e = true) -> find_in_cache s true e cur true real = Found real.
+  find_in_cache s true e cur true real = Found real.
 Proof.
-  intros Hv e cur real Hf He Hrel. rewrite (find_seed s Hv e cur real Hf Hrel). unfold lookup_spec.
+  intros Hv e cur real Hf He. rewrite (find_seed s Hv e cur real Hf). unfold lookup_spec.
   apply (issub_family s Hv) in He. now rewrite He.
 Qed.
 
 (* witness: diamond A; B(A); C(A); D(B,C).  A seed typed B for a stored D hides it from a lookup through C *)
 Definition s_abcd : schema :=
   [ {| d_bases := [1; 2]; d_discr := 30 |}; {| d_bases := [0]; d_discr := 20 |}; {| d_bases := [0]; d_discr := 10 |}; {| d_bases := []; d_discr := 0 |} ].
-Lemma seed_sibling_hides : valid s_abcd = true /\ find_in_cache s_abcd true 2 1 true 3 = NotFound /\ lookup_spec s_abcd 2 3 = Found 3.
-Proof. repeat split; reflexivity. Qed.
+Lemma s_abcd_valid : valid s_abcd = true. Proof. reflexivity. Qed.
+(* a K1-typed seed of a stored K3 no longer hides it from a lookup through the sibling branch K2 *)
+Lemma seed_sibling_found : find_in_cache s_abcd true 2 1 true 3 = Found 3.
+Proof. reflexivity. Qed.
 (* a falsy discriminator value (0 on the root) is a discriminator like any other *)
 Lemma seed_falsy_root : find_in_cache s_abcd true 1 0 true 1 = Found 1 /\ find_in_cache s_abcd true 1 0 true 0 = NotFound.
 Proof. split; reflexivity. Qed.
@@ -417,7 +427,7 @@ Proof. split; reflexivity. Qed.
 (* the same diamond: an object in the identity map as a K1-typed seed is met again through a K2-typed reference: class change error *)
 Lemma refine_sibling_types : refine s_abcd 1 2 = None /\ family s_abcd 1 3 /\ family s_abcd 2 3.
 Proof.
-  repeat split; try reflexivity; right; apply (all_bases_anc s_abcd (proj1 seed_sibling_hides)); cbn; auto.
+  repeat split; try reflexivity; right; apply (all_bases_anc s_abcd s_abcd_valid); cbn; auto.
 Qed.
 
 (* ------------------------------------------------------------------ reading a reference attribute *)
@@ -438,9 +448,10 @@ Lemma attr_get_loaded_refines s : valid s = true -> forall cur real, family s cu
   attr_get_class s attr_get_loaded_value_reaches_guard cur true real = Some real.
 Proof. intros Hv cur real Hf. rewrite attr_get_source_guarded. now apply attr_get_refines. Qed.
 
-(* witnesses: the placeholder of a K3 object typed K0 is handed out as K0 by collection iteration and after unpickling *)
-Lemma collection_item_unrefined : collection_item_class 0 3 <> 3 /\ family s_abcd 0 3.
-Proof. split; [discriminate|]. right. apply (all_bases_anc s_abcd (proj1 seed_sibling_hides)). cbn. auto. Qed.
+Lemma collection_item_refined s : valid s = true -> forall cur real, family s cur real -> collection_item_class s cur real = real.
+Proof. intros Hv cur real Hf. unfold collection_item_class. now rewrite (refine_exact s Hv cur real Hf). Qed.
+
+(* witness: the placeholder of a K3 object typed K0 is handed out as K0 after unpickling *)
 Lemma unpickled_ref_unrefined : unpickled_ref_class 0 3 <> 3.
 Proof. discriminate. Qed.
 
